@@ -1,6 +1,7 @@
 package yqlib
 
 import (
+	"bufio"
 	"io"
 	"strings"
 )
@@ -104,4 +105,62 @@ func VerifC18DecoderReuse() {
 	verifObserve("after-history-2", r2)
 	verifAssert(r1 == r2, "C18/decoder-result-depends-on-earlier-file")
 	verifCover("C18/decoder/end")
+}
+
+// VerifC18EncoderReuse: what a reused encoder (behind one printer, as for a multi-document or multi-file run) emits for
+// a document does not depend on the document it emitted before: B after A equals B from a fresh encoder, for every
+// output format whose encoder the engine executes.
+var c18Formats = []string{"xml", "csv", "tsv", "shell", "lua", "toml", "uri", "props"}
+
+func c18EncDoc(which int, x string) *CandidateNode {
+	var n *CandidateNode
+	switch which {
+	case 0:
+		n = vDoc(vMap(vStr("a"), vStr(x)))
+		n.LeadingContent = "# lead\n"
+	case 1:
+		n = vDoc(vMap(vStr("b"), vMap(vStr("c"), vStr(x))))
+	case 2:
+		n = vDoc(vSeq(vMap(vStr("h"), vStr(x)), vMap(vStr("h"), vStr("z"))))
+	case 3:
+		n = vDoc(vStr(x))
+		n.LeadingContent = "# other\n"
+	default:
+		m := vMap(vStr("k"), vStr(x))
+		m.HeadComment = "# hc"
+		n = vDoc(m)
+	}
+	return n
+}
+
+func c18Print(p Printer, sb *strings.Builder, d *CandidateNode) (string, bool) {
+	before := sb.Len()
+	err := p.PrintResults(d.AsList())
+	return sb.String()[before:], err == nil
+}
+
+func VerifC18EncoderReuse() {
+	fi := verifChoice("format", len(c18Formats))
+	f, err := FormatFromString(c18Formats[fi])
+	if err != nil || f.EncoderFactory == nil {
+		verifFail("C18/format-lookup")
+	}
+	a, b := verifChoice("first", 5), verifChoice("second", 5)
+	x := verifStrN("x", 1, "az")
+	var sb1, sb2 strings.Builder
+	p1 := NewPrinter(f.EncoderFactory(), NewSinglePrinterWriter(bufio.NewWriter(c17Writer{&sb1})))
+	_, _ = c18Print(p1, &sb1, c18EncDoc(a, x))
+	docB := c18EncDoc(b, x)
+	docB.document = 0
+	got, okGot := c18Print(p1, &sb1, docB)
+	p2 := NewPrinter(f.EncoderFactory(), NewSinglePrinterWriter(bufio.NewWriter(c17Writer{&sb2})))
+	want, okWant := c18Print(p2, &sb2, c18EncDoc(b, x))
+	verifObserve("after-another", got)
+	verifObserve("fresh", want)
+	label := "format=" + c18Formats[fi]
+	verifAssert(okGot == okWant, "C18/encoder-failure-depends-on-earlier-document "+label)
+	if okGot && okWant {
+		verifAssert(verifEqStr(got, want), "C18/encoder-output-depends-on-earlier-document "+label)
+	}
+	verifCover("C18/encoder/end")
 }
